@@ -79,6 +79,13 @@ func (a *Assembler) Run(ctx context.Context, targetFs fs.FS, parts []UnpackSpec,
 		}
 	}
 
+	// Filler directories are directories.  Anything else, and the first parent that needs making would
+	//  blow up half way through the placements (PlaceFile panics on a half-made Metadata), past every rollback.
+	if fillerDirProps.Type != fs.Type_Dir {
+		return nil, Errorf(rio.ErrAssemblyInvalid, "invalid filler dir properties: "+
+			"type must be %q, not %q", fs.Type_Dir, fillerDirProps.Type)
+	}
+
 	// Unpacking either wares or more mounts into paths under mounts is seriously illegal.
 	//  It's a massive footgun, entirely strange, and just No.
 	//  Doing it into paths under other wares is fine because it's not *leaving* our zone.
